@@ -4,10 +4,10 @@ import json
 from checks import sase_common as S
 
 META = {
-    "technique": "Coq proof (bounds as invariants of the engine step over all streams and strategies; no-panic from NFA well-formedness + the Zdd theorems) + model/impl differential on adversarial streams",
+    "technique": "Coq proof (bounds as invariants of the engine step over all streams and strategies; no-panic from NFA well-formedness + the Zdd theorems) + model/impl differential on adversarial streams (plus an oracle-only probe of SEQ patterns with a NOT step, outside the model)",
     "design_ref": "DESIGN.md §7 C05",
     "level_text": "Theorems C05_* in coq/theories/Sase/Props.v about the executable model of the SASE engine; tie by per-event comparison of matches and run counters (active, created, dropped, evicted, completed)",
-    "level_note": "Proved: run bound (max_runs >= 1), enumeration cap, never-panics (C05_never_panics: every pattern, stream, configuration). Kleene event bound proved for patterns with at most one `all` step (C05_kleene_events_bound); for two or more `all` steps it rests on the oracle. Per-partition run counts are not exposed by the engine: the oracle bounds the total by max_runs x partitions seen (exact for single-key streams) and the per-partition bound rests on the model tie. Trusted: Coq kernel + vm_compute, model (differential tie), harness",
+    "level_note": "Pattern-level NOT steps (SasePattern::Not), AND/OR and .within are outside the model: SEQ patterns with a NOT step are only probed on the implementation (run bound, no panic; search support, no theorem). Proved: run bound (max_runs >= 1), enumeration cap, never-panics (C05_never_panics: every pattern, stream, configuration). Kleene event bound proved for patterns with at most one `all` step (C05_kleene_events_bound); for two or more `all` steps it rests on the oracle. Per-partition run counts are not exposed by the engine: the oracle bounds the total by max_runs x partitions seen (exact for single-key streams) and the per-partition bound rests on the model tie. Trusted: Coq kernel + vm_compute, model (differential tie), harness",
 }
 
 
